@@ -66,6 +66,21 @@ H("h_numbers::c02_integer_dec_a4", ["C02", "C01", "C11", "C04"], "numbers::integ
   A % 4 + " not starting with 0x / 0o / 0b", tier="thorough", measured_s=355, models=("M1", "M2", "M7"))
 H("h_numbers::c11_integer_hex_edge16", ["C11", "C02", "C01", "C04"], "numbers::integer (hex arm) with M2", "`0x` + 16 symbolic hex digits (every 64-bit pattern, both cases of A-F)", tier="thorough", measured_s=372, models=("M1", "M2", "M7"), mem_gb=24)
 H("h_numbers::c11_integer_oct_edge22", ["C11", "C02", "C01", "C04"], "numbers::integer (octal arm) with M2", "`0o` + 22 symbolic octal digits (66 bits)", tier="thorough", measured_s=478, models=("M1", "M2", "M7"), mem_gb=24)
+# deeper bounds of the same kernels (thorough tier)
+H("h_trivia::c01_comment_u6", ["C01", "C04"], "trivia::comment", U % 6, tier="thorough", measured_s=10)
+H("h_trivia::c01_ws_comment_newline_a5", ["C01", "C04"], "trivia::ws_comment_newline", A % 5, tier="thorough", measured_s=405, termination=True)
+H("h_trivia::c01_ws_newline_a6", ["C01", "C04"], "trivia::ws_newline", A % 6, tier="thorough", measured_s=81)
+H("h_numbers::c01_dec_int_u6", ["C01", "C04"], "numbers::dec_int", U % 6, tier="thorough", measured_s=107)
+H("h_numbers::c01_dec_int_u10", ["C01", "C04"], "numbers::dec_int", U % 10, tier="thorough", measured_s=131)
+H("h_numbers::c01_hex_int_u7", ["C01", "C04"], "numbers::hex_int", U % 7, tier="thorough", measured_s=122)
+H("h_numbers::c01_hex_int_u12", ["C01", "C04"], "numbers::hex_int", U % 12, tier="thorough", measured_s=176)
+H("h_numbers::c01_oct_int_u7", ["C01", "C04"], "numbers::oct_int", U % 7, tier="thorough", measured_s=121)
+H("h_numbers::c01_bin_int_u7", ["C01", "C04"], "numbers::bin_int", U % 7, tier="thorough", measured_s=122)
+H("h_numbers::c01_zero_prefixable_int_u6", ["C01", "C04"], "numbers::zero_prefixable_int", U % 6, tier="thorough", measured_s=87)
+H("h_numbers::c01_frac_u6", ["C01", "C04"], "numbers::frac", U % 6, tier="thorough", measured_s=114)
+H("h_numbers::c01_exp_u6", ["C01", "C04"], "numbers::exp", U % 6, tier="thorough", measured_s=118)
+H("h_numbers::c01_float_syntax_a5", ["C01", "C04"], "numbers::float_ (dec_int, exp, frac)", A % 5, tier="thorough", measured_s=481)
+H("h_strings::c01_unquoted_key_u8", ["C01", "C04"], "key::unquoted_key", U % 8, tier="thorough", measured_s=20)
 H("h_numbers::c01_true_a5", ["C01", "C02"], "numbers::true_", A % 5, measured_s=6)
 H("h_numbers::c01_false_a6", ["C01", "C02"], "numbers::false_", A % 6, measured_s=7)
 H("h_numbers::c02_special_float_a5", ["C02", "C01", "C11"], "numbers::special_float, inf, nan", A % 5, measured_s=14)
@@ -96,15 +111,26 @@ H("h_datetime_kernels::c12_time_offset_a3", ["C12", "C01", "C04"], "datetime::ti
 H("h_datetime_kernels::c12_time_offset_shape6", ["C12", "C01", "C02", "C04"], "datetime::time_offset (sign, range verify, unreachable!)",
   "free ASCII byte + 2 symbolic digits + free ASCII byte + 2 symbolic digits", measured_s=52)
 
+H("h_datetime_kernels::c12_full_date_a11", ["C12", "C01", "C02", "C04"], "datetime::full_date (date_fullyear, date_month, date_mday, leap-year rule, cut errors)", A % 11, measured_s=167)
+H("h_datetime_kernels::c12_partial_time_a10", ["C12", "C01", "C02", "C04"], "datetime::partial_time (time_hour, time_minute, time_second, time_secfrac)", A % 10, measured_s=222)
+H("h_datetime_kernels::c12_date_time_a10", ["C12", "C01", "C02", "C04"], "datetime::date_time (the assembled rule: alt / opt of full_date, time_delim, partial_time, time_offset)", A % 10, tier="thorough", measured_s=1633, mem_gb=24)
+
 # ---- toml_datetime::Datetime::from_str (public API, no hook) ------------------------------------
-H("h_datetime_fromstr::c12_fromstr_a8", ["C12", "C04"], "toml_datetime::Datetime::from_str, digit", A % 8, measured_s=162, models=())
+H("h_datetime_fromstr::c12_fromstr_a8", ["C12", "C04"], "toml_datetime::Datetime::from_str, digit", A % 8, measured_s=80, models=("M8",))
 H("h_datetime_fromstr::c12_fromstr_shape_date", ["C12", "C04"], "toml_datetime::Datetime::from_str",
-  "`dddd-dd-dd` with 8 symbolic digits (all 10^8 dates incl. leap years) + optional free ASCII byte", tier="thorough", measured_s=332, models=())
+  "`dddd-dd-dd` with 8 symbolic digits (all 10^8 dates incl. leap years) + optional free ASCII byte", tier="thorough", measured_s=380, models=("M8",))
 H("h_datetime_fromstr::c12_fromstr_shape_datetime_offset", ["C12", "C04"], "toml_datetime::Datetime::from_str",
-  "`dddd-dd-dd D dd:dd:dd` + nothing | free byte | `F dd G dd` (D, F, G free ASCII bytes, 18 symbolic digits)", tier="thorough", measured_s=533, models=())
+  "`dddd-dd-dd D dd:dd:dd` + nothing | free byte | `F dd G dd` (D, F, G free ASCII bytes, 18 symbolic digits)", tier="thorough", measured_s=590, models=("M8",))
 H("h_datetime_fromstr::c12_fromstr_shape_full_one_free", ["C12", "C04"], "toml_datetime::Datetime::from_str",
-  "`dddd-dd-ddTdd:dd:dd.ddd+dd:dd`, 21 symbolic digits, one of the 8 punctuation bytes (symbolic choice) replaced by a free ASCII byte", tier="thorough", measured_s=516, models=())
-H("h_datetime_fromstr::c12_fromstr_u5", ["C12", "C04"], "toml_datetime::Datetime::from_str, digit", U % 5, measured_s=65, models=())
+  "`dddd-dd-ddTdd:dd:dd.ddd+dd:dd`, 21 symbolic digits, one of the 8 punctuation bytes (symbolic choice) replaced by a free ASCII byte", tier="thorough", measured_s=520, models=("M8",))
+H("h_datetime_fromstr::c12_fromstr_shape_feb", ["C12", "C04"], "toml_datetime::Datetime::from_str (leap-year rule)", "`dddd-02-dd`, 6 symbolic digits: February of every year", measured_s=80, models=("M8",))
+for k, t, m in ((1, "quick", 104), (4, "quick", 112), (9, "thorough", 500), (10, "thorough", 450)):
+    H(f"h_datetime_fromstr::c12_fromstr_time_frac{k}", ["C12", "C04"], "toml_datetime::Datetime::from_str (fraction loop, 10u32.pow, truncation)", f"`dd:dd:dd.` + exactly {k} symbolic digits", tier=t, measured_s=m, models=("M8",))
+H("h_datetime_fromstr::c12_fromstr_a14", ["C12", "C04"], "toml_datetime::Datetime::from_str, digit", A % 14, measured_s=170, models=("M8",))
+H("h_datetime_fromstr::c12_fromstr_a19", ["C12", "C04"], "toml_datetime::Datetime::from_str, digit", A % 19, tier="thorough", measured_s=1350, models=("M8",), mem_gb=24)
+H("h_datetime_fromstr::c12_fromstr_a25", ["C12", "C04"], "toml_datetime::Datetime::from_str, digit", A % 25, tier="thorough", measured_s=2060, models=("M8",), mem_gb=24)
+H("h_datetime_fromstr::c12_fromstr_u7", ["C12", "C04"], "toml_datetime::Datetime::from_str, digit", U % 7, tier="thorough", measured_s=93, models=("M8",))
+H("h_datetime_fromstr::c12_fromstr_u5", ["C12", "C04"], "toml_datetime::Datetime::from_str, digit", U % 5, measured_s=60, models=("M8",))
 
 # ---- C11: float overflow guard ------------------------------------------------------------------
 H("h_float::c11_float_overflow_guard", ["C11", "C01"], "numbers::float (float_, rest.try_map(parse), verify) with M2 + M3",
